@@ -526,15 +526,19 @@ def run_history(ops, initial=(), parallel=False, via_composite=False):
         invoked = {}
         seen = []
         dview = oview = zview = None
+        director_ran = False
         for ev in LOG:
+            if ev[0] == 'stepdirector':
+                director_ran = True
             if ev[0] == 'proc':
                 p = before.get(ev[1], ['zombie', str(ev[1])])
                 invoked[tuple(p)] = invoked.get(tuple(p), 0) + 1
             elif ev[0] == 'step':
                 p = after.get(ev[1]) or before.get(ev[1], ['zombie', str(ev[1])])
                 if op.get('mode') == 'step' and ev[1] in before and ev[1] in after \
-                        and before[ev[1]] != after[ev[1]]:
+                        and before[ev[1]] != after[ev[1]] and not director_ran:
                     # a step that ran and was then moved: report it where it ran
+                    # (one that runs after the move runs at its new place)
                     p = before[ev[1]]
                 invoked[tuple(p)] = invoked.get(tuple(p), 0) + 1
                 if ev[2] != 0:
